@@ -176,7 +176,8 @@ pub fn line_atoms(d: &Delims, n: &Names, reduced: bool) -> Vec<String> {
 #[derive(Debug, Clone, PartialEq)]
 pub enum Item {
     /// a code line: extra indentation units beyond the structural level, multi-byte text or not
-    Code { extra: u8, mb: bool },
+    /// `rich`: interior double spaces and trailing spaces (whitespace-rich filler for C14)
+    Code { extra: u8, mb: bool, rich: bool },
     Blank,
     /// whitespace-only line: 1 = two spaces, 2 = one tab
     Ws(u8),
@@ -205,6 +206,7 @@ pub struct AstParams {
     pub mb: bool,
     pub extra_indent: bool,
     pub blank: bool,
+    pub rich: bool,
 }
 
 pub fn size(items: &[Item]) -> usize {
@@ -220,7 +222,7 @@ pub fn size(items: &[Item]) -> usize {
 #[derive(Clone, Copy)]
 enum Opt {
     End,
-    Code(u8, bool),
+    Code(u8, bool, bool),
     Blank,
     Ws(u8),
     Inline(Kind, bool, bool, bool),
@@ -238,12 +240,15 @@ fn gen_list(ch: &mut Chooser, p: &AstParams, budget: &mut usize, depth: usize) -
         if *budget == 0 {
             break;
         }
-        let mut opts: Vec<Opt> = vec![Opt::End, Opt::Code(0, false)];
+        let mut opts: Vec<Opt> = vec![Opt::End, Opt::Code(0, false, false)];
         if p.extra_indent {
-            opts.push(Opt::Code(1, false));
+            opts.push(Opt::Code(1, false, false));
         }
         if p.mb {
-            opts.push(Opt::Code(0, true));
+            opts.push(Opt::Code(0, true, false));
+        }
+        if p.rich {
+            opts.push(Opt::Code(0, false, true));
         }
         if p.blank {
             opts.push(Opt::Blank);
@@ -268,9 +273,13 @@ fn gen_list(ch: &mut Chooser, p: &AstParams, budget: &mut usize, depth: usize) -
         }
         match opts[ch.choose(opts.len())] {
             Opt::End => break,
-            Opt::Code(e, mb) => {
+            Opt::Code(e, mb, rich) => {
                 *budget -= 1;
-                v.push(Item::Code { extra: e, mb });
+                v.push(Item::Code {
+                    extra: e,
+                    mb,
+                    rich,
+                });
             }
             Opt::Blank => {
                 *budget -= 1;
@@ -394,9 +403,11 @@ fn render_list(
     let ind = |n: usize| o.unit.repeat(n);
     for it in items {
         match it {
-            Item::Code { extra, mb } => {
+            Item::Code { extra, mb, rich } => {
                 let id = next_id(ctr);
-                let text = if *mb {
+                let text = if *rich {
+                    format!("{}{}  =  1;  ", ind(level + *extra as usize), id)
+                } else if *mb {
                     format!("{}{}あ🧹;", ind(level + *extra as usize), id)
                 } else {
                     format!("{}{}();", ind(level + *extra as usize), id)
